@@ -1167,6 +1167,19 @@ pub async fn start_rpc_server(
     Ok(handle)
 }
 
+#[cfg(feature = "verif-hooks")]
+pub(crate) fn verif_rpc_methods(engine: BRC20ProgEngine) -> jsonrpsee::Methods {
+    RpcServer { engine }.into_rpc().into()
+}
+
+#[cfg(feature = "verif-hooks")]
+pub(crate) async fn verif_start_rpc_server(
+    engine: BRC20ProgEngine,
+    config: Brc20ProgConfig,
+) -> Result<ServerHandle, Box<dyn Error>> {
+    start_rpc_server(engine, config).await
+}
+
 fn ticker_as_bytes(ticker: &str) -> Bytes {
     let ticker_lowercase = ticker.to_lowercase();
     Bytes::from(ticker_lowercase.as_bytes().to_vec())
